@@ -163,6 +163,81 @@ def ifswap(src: str) -> str:
     return ast.unparse(tree) + '\n'
 
 
+class PassPadder(ast.NodeTransformer):
+    """Insert a `pass` after every statement of every function body (and of the blocks nested in it)."""
+
+    def _pad(self, stmts):
+        out = []
+        for st in stmts:
+            out.append(st)
+            if not isinstance(st, (ast.Return, ast.Raise, ast.Break, ast.Continue)):
+                out.append(ast.Pass())
+        return out
+
+    def generic_visit(self, node):
+        super().generic_visit(node)
+        if isinstance(node, (ast.FunctionDef, ast.AsyncFunctionDef, ast.For, ast.AsyncFor, ast.While, ast.If, ast.With, ast.AsyncWith,
+                             ast.Try, ast.ExceptHandler)):
+            inside_func = True
+            for fld in ('body', 'orelse', 'finalbody'):
+                v = getattr(node, fld, None)
+                if isinstance(v, list) and v and isinstance(v[0], ast.stmt):
+                    first_doc = isinstance(node, (ast.FunctionDef, ast.AsyncFunctionDef)) and fld == 'body' and \
+                        isinstance(v[0], ast.Expr) and isinstance(v[0].value, ast.Constant) and isinstance(v[0].value.value, str)
+                    setattr(node, fld, ([v[0]] + self._pad(v[1:])) if first_doc else self._pad(v))
+        return node
+
+    def visit_ClassDef(self, node):
+        # class bodies are left alone (attribute docstrings follow their assignment), but methods are padded
+        for i, st in enumerate(node.body):
+            node.body[i] = self.visit(st)
+        return node
+
+    def visit_Module(self, node):
+        for i, st in enumerate(node.body):
+            if isinstance(st, (ast.FunctionDef, ast.AsyncFunctionDef, ast.ClassDef)):
+                node.body[i] = self.visit(st)
+        return node
+
+
+def padpass(src: str) -> str:
+    tree = PassPadder().visit(ast.parse(src))
+    ast.fix_missing_locations(tree)
+    return ast.unparse(tree) + '\n'
+
+
+class GuardToElse(ast.NodeTransformer):
+    """`if c: ...; return x` followed by the rest of the block  ->  `if c: ...; return x  else: <rest>` (guard clause to if/else)."""
+
+    def _rewrite(self, stmts):
+        for i, st in enumerate(stmts):
+            if isinstance(st, ast.If) and not st.orelse and st.body and isinstance(st.body[-1], (ast.Return, ast.Raise, ast.Continue, ast.Break)) \
+                    and i + 1 < len(stmts):
+                rest = self._rewrite(stmts[i + 1:])
+                st.orelse = rest
+                return stmts[:i + 1]
+        return stmts
+
+    def generic_visit(self, node):
+        super().generic_visit(node)
+        if isinstance(node, (ast.FunctionDef, ast.AsyncFunctionDef, ast.For, ast.AsyncFor, ast.While, ast.If, ast.With, ast.AsyncWith,
+                             ast.Try, ast.ExceptHandler)):
+            for fld in ('body', 'orelse', 'finalbody'):
+                v = getattr(node, fld, None)
+                if isinstance(v, list) and v and isinstance(v[0], ast.stmt):
+                    setattr(node, fld, self._rewrite(v))
+        return node
+
+
+def guard2else(src: str) -> str:
+    tree = GuardToElse().visit(ast.parse(src))
+    ast.fix_missing_locations(tree)
+    return ast.unparse(tree) + '\n'
+
+
+GENERATORS = {'padpass': padpass, 'guard2else': guard2else}
+
+
 def rewrite_tree(root: Path, mode: str, suffix: str = '_x') -> int:
     """Rewrite every non-test module below root/pydoctor in place: mode 'rename' (local variables) or 'unparse' (reformat)."""
     n = 0
@@ -171,7 +246,8 @@ def rewrite_tree(root: Path, mode: str, suffix: str = '_x') -> int:
             continue
         s = p.read_text()
         try:
-            out = process(s, suffix) if mode == 'rename' else ifswap(s) if mode == 'ifswap' else ast.unparse(ast.parse(s)) + '\n'
+            out = process(s, suffix) if mode == 'rename' else ifswap(s) if mode == 'ifswap' else GENERATORS[mode](s) if mode in GENERATORS \
+                else ast.unparse(ast.parse(s)) + '\n'
             compile(out, str(p), 'exec')
         except Exception:
             continue
